@@ -98,6 +98,9 @@ func remoteFn(c vkit.Call) vkit.Reply {
 	return rep
 }
 
+// the content types under which a remote system may send YAML
+var yamlContentTypes = []string{"application/yaml", "application/x-yaml", "text/yaml", "application/yaml; charset=utf-8", "application/x-yaml;charset=UTF-8", "application/vnd.acme+yaml"}
+
 func remoteAnswer(c vkit.Call) vkit.Reply {
 	echo := sum(c.Path, c.RawQuery, relevantHeaders(c), string(c.Body))
 
@@ -119,7 +122,16 @@ func remoteAnswer(c vkit.Call) vkit.Reply {
 
 		if strings.Contains(string(c.Body), "answer-as-yaml") {
 			// (the same answer in the other structured format heimdall understands)
-			return vkit.Reply{Status: 200, Header: map[string]string{"Content-Type": "application/yaml", "X-Remote-Echo": echo},
+			// (under any of the names this format goes by, with or without parameters)
+			ct := "application/yaml"
+
+			for _, spelled := range yamlContentTypes {
+				if strings.Contains(string(c.Body), "answer-as-yaml:"+spelled+"|") {
+					ct = spelled
+				}
+			}
+
+			return vkit.Reply{Status: 200, Header: map[string]string{"Content-Type": ct, "X-Remote-Echo": echo},
 				Body: []byte(fmt.Sprintf("echo: %q\nlevel: %d\n", echo, level))}
 		}
 
@@ -452,7 +464,8 @@ func shiftedEndpoints(t *rapid.T, ep map[string]any) (map[string]any, map[string
 	}
 
 	a, b := cp(), cp()
-	what := rapid.SampledFrom([]string{"header name/value", "basic auth user/password", "api key name/value", "value of a header named in lower case"}).Draw(t, "shiftedEndpointSetting")
+	what := rapid.SampledFrom([]string{"header name/value", "basic auth user/password", "api key name/value", "value of a header named in lower case",
+		"header of the client credentials token", "scheme of the client credentials token"}).Draw(t, "shiftedEndpointSetting")
 
 	switch what {
 	case "header name/value":
@@ -462,6 +475,31 @@ func shiftedEndpoints(t *rapid.T, ep map[string]any) (map[string]any, map[string
 		// (not shifted, just different - under a name as it is commonly written in yaml)
 		a["headers"].(map[string]any)["x-realm"] = "customers"
 		b["headers"].(map[string]any)["x-realm"] = "staff"
+	case "header of the client credentials token", "scheme of the client credentials token":
+		// (not shifted, just different: the same token of the same client reaches the remote system in another header
+		// resp. under another scheme)
+		cc := func(header map[string]any) map[string]any {
+			conf := map[string]any{"token_url": remote.URL() + "/token", "client_id": "endpoint-client", "client_secret": "s3cr3t"}
+			if header != nil {
+				conf["header"] = header
+			}
+
+			return map[string]any{"type": "oauth2_client_credentials", "config": conf}
+		}
+
+		if what == "header of the client credentials token" {
+			a["auth"] = cc(rapid.SampledFrom([]map[string]any{nil, {"name": "X-Key-Ab"}}).Draw(t, "headerOfA"))
+			b["auth"] = cc(map[string]any{"name": "X-Key-A"})
+		} else {
+			name := rapid.SampledFrom([]string{"Authorization", "X-Key-A"}).Draw(t, "tokenHeader")
+			a["auth"] = cc(map[string]any{"name": name, "scheme": "Bearer"})
+
+			if name == "Authorization" && rapid.Bool().Draw(t, "defaultsOfA") {
+				a["auth"] = cc(nil)
+			}
+
+			b["auth"] = cc(map[string]any{"name": name, "scheme": "Token"})
+		}
 	case "basic auth user/password":
 		a["auth"] = map[string]any{"type": "basic_auth", "config": map[string]any{"user": "ab", "password": "c"}}
 		b["auth"] = map[string]any{"type": "basic_auth", "config": map[string]any{"user": "a", "password": "bc"}}
@@ -519,7 +557,7 @@ func genSubjectHandlerCase(t *rapid.T, family string) caseSpec {
 	case 0:
 		pc["payload"] = `{"sub":"{{ .Subject.ID }}","tier":"{{ .Values.tier }}","mode":"answer-without-body"}`
 	case 3:
-		pc["payload"] = `{"sub":"{{ .Subject.ID }}","tier":"{{ .Values.tier }}","mode":"answer-as-yaml"}`
+		pc["payload"] = `{"sub":"{{ .Subject.ID }}","tier":"{{ .Values.tier }}","mode":"answer-as-yaml:` + rapid.SampledFrom(yamlContentTypes).Draw(t, "yamlContentType") + `|"}`
 
 		if family == "remote_authorizer" {
 			// (an expression which calculates with a number of the answer)
